@@ -11,6 +11,8 @@ sys.setrecursionlimit(20000)
 
 
 def main():
+    import faulthandler, signal
+    faulthandler.register(signal.SIGUSR1, all_threads=True)  # kill -USR1 <pid> prints the Python stack of a stuck check
     ap = argparse.ArgumentParser()
     ap.add_argument("prop")
     ap.add_argument("--tier", default=os.environ.get("VERIF_TIER", "quick"))
